@@ -142,6 +142,11 @@ def verify_function(reg, frontend, con, prop=None):
         res.status, res.reason = "unsupported", "%s (line %s)" % (e, ctx.cur_line)
     except RecursionError as e:
         res.status, res.reason = "unsupported", "recursion limit"
+    except (AttributeError, TypeError, KeyError, IndexError, z3.Z3Exception, ValueError) as e:
+        # an engine failure on unexpected source is "undecided", never a verdict
+        import traceback
+        res.status, res.reason = "unsupported", "engine error %s: %s (line %s) %s" % (
+            type(e).__name__, e, ctx.cur_line, traceback.format_exc().strip().split("\n")[-3].strip())
     res.obligations = ctx.obligations
     res.float_ops = sorted(ctx.float_ops, key=lambda t: (t[1] or 0, t[2]))
     res.models_used = sorted(ctx.models_used)
